@@ -100,7 +100,7 @@ func TestC04Rapid(t *testing.T) {
 				onlyInvalidOrUnknown = append(onlyInvalidOrUnknown, q)
 			}
 		}
-		n := rapid.SampledFrom([]int{0, 1, 1, 2, 2, 3, 4, 5, 6, 8}).Draw(t, "nReq") // also the empty request
+		n := rapid.SampledFrom([]int{0, 1, 1, 2, 2, 3, 4, 5, 6, 8, 12, 17, 33, 70}).Draw(t, "nReq") // also the empty request, and long ones
 		var req []string
 		classes := map[string]bool{}
 		for i := 0; i < n; i++ {
@@ -197,6 +197,9 @@ func TestC04Rapid(t *testing.T) {
 		}
 		if len(want) == 0 {
 			labels = append(labels, "all-resolve")
+		}
+		if len(want) >= 9 {
+			labels = append(labels, "nine-or-more-unresolvable-names")
 		}
 		if stale {
 			labels = append(labels, "directories-changed-without-refresh")
